@@ -71,6 +71,11 @@ void DependencyInfoParser::parse() {
   while (cur != end) {
     const char* opcodeStart = cur;
     auto opcode = Opcode(*cur++);
+    // If the opcode was the final (null) byte there is no operand to scan.
+    if (cur == end) {
+      actions.error("empty operand", opcodeStart - data.data());
+      break;
+    }
     const char* operandStart = cur;
     while (*cur != '\0') {
       ++cur;
